@@ -944,6 +944,8 @@ struct Out {
     clients: Vec<CliRec>,
     expected_hellos: Vec<&'static str>,
     n_ok: usize,
+    /// connections made after the embedder's token was cancelled
+    late_ok: usize,
     bad_attempts: usize,
     failed_waits: Vec<&'static str>,
     harness_err: Option<String>,
@@ -1108,6 +1110,7 @@ async fn run_scenario_inner(spec: Spec, env: Arc<Env>) -> Out {
         clients: vec![],
         expected_hellos: if with_ctx { vec!["/hello1", "/hello2"] } else { vec!["/hello1"] },
         n_ok: 0,
+        late_ok: 0,
         bad_attempts: 0,
         failed_waits: vec![],
         harness_err: None,
@@ -1380,6 +1383,26 @@ async fn run_scenario_inner(spec: Spec, env: Arc<Env>) -> Out {
                     Phase::ConnectCb => sc.cgate.open(ACT_GO),
                     _ => {}
                 }
+                // late arrivals: an upgrade that completes after the embedder cancelled its token is an accepted connection
+                // like any other (connect hooks once, then disconnect hooks once, registered in between)
+                if token.is_some() && out.harness_err.is_none() {
+                    sc.cgate.open(ACT_GO);
+                    let late = 1 + (variant & 1) as usize;
+                    let lc = join_all((0..late).map(|j| connect_client(addr, total + j, "/repe", false))).await;
+                    for (j, c) in lc.into_iter().enumerate() {
+                        if let Ok(ws) = c {
+                            out.n_ok += 1;
+                            out.late_ok += 1;
+                            clients.push(Cli { idx: total + j, handshake_ok: true, ws: Some(ws), frames: vec![], unparsable: 0, bystander: false, got_first_response: false, note: None });
+                        }
+                    }
+                    // give the server the time to have noticed them (either callback family) before the quiescence waits
+                    let want = out.n_ok;
+                    let _ = wait_until(Duration::from_secs(2), || {
+                        sc.count(|e| matches!(e, Ev::Connect0 { .. })) >= want || sc.count(|e| matches!(e, Ev::Disc1 { .. })) >= want
+                    })
+                    .await;
+                }
             }
             Some(c @ (Cause::GracefulDrain | Cause::DrainAbort)) => {
                 if let Some(tx) = shutdown_tx.take() {
@@ -1485,7 +1508,7 @@ async fn run_scenario_inner(spec: Spec, env: Arc<Env>) -> Out {
         sc.probe_ev(p, "final");
     }
     out.final_len = sc.reg.len();
-    out.final_alias_c = (0..total).filter(|i| sc.reg.get_by(format!("c-{i}").as_str()).is_some()).count();
+    out.final_alias_c = (0..total + 2).filter(|i| sc.reg.get_by(format!("c-{i}").as_str()).is_some()).count();
     out.clients = clients
         .into_iter()
         .map(|c| CliRec { idx: c.idx, frames: c.frames, unparsable: c.unparsable, handshake_ok: c.handshake_ok, bystander: c.bystander, got_first_response: c.got_first_response, note: c.note })
@@ -1900,6 +1923,7 @@ pub fn run(args: &Args) -> Report {
     let mut slow: Vec<(u64, String)> = vec![];
     let mut t = Tally { connects: 0, disconnects: 0, probes_present: 0, probes_absent: 0, probes_unconstrained: 0, order_checks: 0, connect_notifies_seen: 0, parked: 0, released_after_disconnect_cancelled: 0, cancel_seen: 0, frames: 0, bystanders_alive: 0, panics: 0, tolerated: 0, error_responses: 0, client_notes: 0, hook_released_cancelled: 0, hook_release_by_driver: 0, tk: Default::default() };
     let (mut scenarios, mut connections, mut bad_attempts, mut passes_done, mut not_started) = (0u64, 0u64, 0u64, 0u64, 0u64);
+    let mut late_connections = 0u64;
     for pass in 0..passes {
         if rep.elapsed() > wall_cap || env.expired.load(Ordering::Relaxed) >= 8 {
             break;
@@ -1995,6 +2019,7 @@ pub fn run(args: &Args) -> Report {
                     rep.eval();
                     scenarios += 1;
                     connections += o.n_ok as u64;
+                    late_connections += o.late_ok as u64;
                     bad_attempts += o.bad_attempts as u64;
                     *conn_hist.entry(o.spec.conns).or_default() += 1;
                     slow.push((o.wall_ms, format!("{:?} via {:?} x{} {}", o.spec.kind, o.spec.entry, o.spec.conns, o.cfg)));
@@ -2020,6 +2045,7 @@ pub fn run(args: &Args) -> Report {
     rep.set("cells_executed", json!(executed_cells.len()));
     rep.set("cells_not_executed", json!(cells.iter().map(|(k, e)| { let (c, p) = cell_name(k); format!("{c}:{p}:{e:?}") }).filter(|n| !executed_cells.contains(n)).collect::<Vec<_>>()));
     rep.set("connections_accepted", json!(connections));
+    rep.set("connections_made_after_the_embedder_token_was_cancelled", json!(late_connections));
     rep.set("connections_per_scenario_histogram", json!(conn_hist.iter().map(|(k, v)| (k.to_string(), *v)).collect::<BTreeMap<_, _>>()));
     rep.set("failed_handshakes_attempted", json!(bad_attempts));
     rep.set("connect_callbacks_observed", json!(t.connects));
